@@ -86,6 +86,16 @@ def main():
         val = '(Ok %s)' % coq_form(fparse(o[1])) if o[0] == 'ok' else 'ParseErr'
         lines.append('Example ps%d : parse_string %s "%s"%%string = %s. Proof. vm_compute. reflexivity. Qed.'
                      % (i, L, t.replace('"', '""'), val))
+    # faithful (printed-form) models of Model/Memo.v on the hand-written collision cases
+    import memo_probe
+    mcases = ([('ctlmemo', 'ctl_modelcheck_memo', kd, f) for kd, f, _ in memo_probe.HAND['CTL'][:10]] +
+              [('ltlprint', 'ltl_modelcheck_print', kd, f) for kd, f, _ in memo_probe.HAND['LTL'][:8]])
+    mks = [kripke_sx(kd_py(kd)) for _, _, kd, _ in mcases]
+    mout = model_batch([[c, ks, fsx(f)] for (c, _, _, f), ks in zip(mcases, mks)])
+    lines.append('From PMC Require Import Model.Memo.')
+    for i, ((_, fn, _, f), ks, o) in enumerate(zip(mcases, mks, mout)):
+        lines.append('Example mm%d : %s %s %s = %s. Proof. vm_compute. reflexivity. Qed.'
+                     % (i, fn, coq_kripke(ks), coq_form(f), coq_result_list(o)))
     d = os.path.join(VERIF, 'build')
     os.makedirs(d, exist_ok=True)
     p = os.path.join(d, 'SelfTest.v')
@@ -95,7 +105,7 @@ def main():
         print('SELFTEST FAILED: extracted driver and vm_compute disagree (or SelfTest.v does not compile)')
         print((r.stdout + r.stderr)[-2000:])
         sys.exit(1)
-    print('selftest ok: %d cases agree between driver and vm_compute' % (len(terms) + 15 + len(pcases)))
+    print('selftest ok: %d cases agree between driver and vm_compute' % (len(terms) + 15 + len(pcases) + len(mcases)))
 
 
 if __name__ == '__main__':
